@@ -350,24 +350,36 @@ def run_check(prop, tier, seed):
         if p.returncode != 0:
             broken.append("leanchecker rejected %s: %s" % (prop.LEAN_MODULE, p.stdout.decode()[-300:]))
     # 3 ---------------------------------------------------------------- correspondence
-    try:
-        corr = prop.correspondence(ctx)
-    except Exception as ex:  # noqa
-        where = _raised_in_repo(ex)
-        if where is None and not broken:
-            raise               # the harness itself failed on a tree whose proofs still check: infrastructure, exit 2
-        # either the implementation raised something no path of the unchanged code raises and the harness had no
-        # answer for, or the source has already changed shape (a proof obligation / the translator broke) and the
-        # harness cannot drive it any more: the correspondence no longer checks; go on to the failing-input search
-        corr = Corr()
-        if where is not None:
-            corr.error = "the implementation raised %s: %s at %s while the correspondence was running" % (
-                type(ex).__name__, str(ex)[:200], where)
-        else:
-            import traceback
-            last = traceback.extract_tb(ex.__traceback__)[-1]
-            corr.error = "the harness could not drive the changed implementation: %s: %s at %s:%d" % (
-                type(ex).__name__, str(ex)[:200], os.path.basename(last.filename), last.lineno)
+    corr = None
+    for attempt in (1, 2):
+        try:
+            corr = prop.correspondence(ctx)
+            break
+        except Exception as ex:  # noqa
+            where = _raised_in_repo(ex)
+            if where is None and not broken:
+                # the harness itself failed on a tree whose proofs still check.  Real sockets, threads and child
+                # processes make a transient failure possible (a reset between connect and the first byte, a port in
+                # use): try once more before calling it an infrastructure failure (exit 2)
+                if attempt == 1:
+                    import traceback
+                    traceback.print_exc()
+                    ctx.log("correspondence: harness error %s: %s - retrying once" % (type(ex).__name__, str(ex)[:200]))
+                    continue
+                raise
+            # either the implementation raised something no path of the unchanged code raises and the harness had no
+            # answer for, or the source has already changed shape (a proof obligation / the translator broke) and the
+            # harness cannot drive it any more: the correspondence no longer checks; go on to the failing-input search
+            corr = Corr()
+            if where is not None:
+                corr.error = "the implementation raised %s: %s at %s while the correspondence was running" % (
+                    type(ex).__name__, str(ex)[:200], where)
+            else:
+                import traceback
+                last = traceback.extract_tb(ex.__traceback__)[-1]
+                corr.error = "the harness could not drive the changed implementation: %s: %s at %s:%d" % (
+                    type(ex).__name__, str(ex)[:200], os.path.basename(last.filename), last.lineno)
+            break
     if corr.error:
         broken.append("correspondence could not run: " + corr.error)
     ctx.log("correspondence: %d evaluations, %d distinct non-trivial, %d disagreements"
